@@ -110,6 +110,20 @@ def gen_specs(run):
         sv(gen.vmember(mem, 0, ctx={"label": "c05x", "msgs": [["ctx", "aa"]]}), "ctx.label")
         sv(gen.vmember(mem, 0, ctx={"label": "c05", "msgs": [["ctx", "ab"]]}), "ctx.msg")
         sv(gen.vmember(mem, 0, ctx={"label": "c05"}), "ctx.drop")
+        # the altered triple placed RIGHT AFTER (and right before) its untouched original in one batch: every statement-side alteration and a sample of
+        # the proof-side ones (a verifier that recognises a repeated proof must still bind each copy to its own statement and transcript)
+        n_single = len(verifies)
+        orig = gen.vmember(mem, 0)
+        cand = [i for i in range(1, n_single) if not tags[i].startswith(("None<->0", "control"))]
+        stmt_side = [i for i in cand if verifies[i]["vmembers"][0]["proof"] == 0]
+        proof_side = [i for i in cand if verifies[i]["vmembers"][0]["proof"] != 0]
+        for i in stmt_side + rng.sample(proof_side, min(6, len(proof_side))):
+            alt = verifies[i]["vmembers"][0]
+            verifies.append({"mode": rng.choice(["VerifyOnly", "RecoverAndVerify"]), "vmembers": [orig, alt]})
+            tags.append(tags[i] + " | right after its original in one batch")
+            if i % 3 == 0:
+                verifies.append({"mode": "VerifyOnly", "vmembers": [alt, orig]})
+                tags.append(tags[i] + " | right before its original in one batch")
         big = len(verifies) > 60
         for i, v in enumerate(verifies):
             v["log"] = (i % 3 == 0) if big else True
@@ -176,7 +190,7 @@ def oracle(run, s, o):
             run.count(["c05", b, m, T, group, tag, "undecodable-bytes"], None)
             run.bump("rejected at decoding")
             continue
-        pi = vs["vmembers"][0]["proof"]
+        pi = max(x["proof"] for x in vs["vmembers"])
         if not s.get("_batch") and pi >= 1 and o["derived"][pi - 1].get("bytes") == base_bytes:
             run.trivial()
             continue
@@ -232,7 +246,7 @@ def run(run: Run):
         "proof",
         "for accepted triples on the lattice, every position is altered: each of the 2+T scalars (four replacement kinds), each of the 3+2k points (junk, "
         "identity, undecodable, copy of another point, plus a generator), the round structure (drop / duplicate / swap; the NUMBER of rounds altered to 0..k+64 in release and debug builds), the extension tag and d1 length, every "
-        "commitment (three kinds), the commitment order, every promise (+1, -1, 0, max, None), the bit length, H, every Gb_k and the context; each must be an "
+        "commitment (three kinds), the altered triple also placed right after / before its untouched original in one batch, the commitment order, every promise (+1, -1, 0, max, None), the bit length, H, every Gb_k and the context; each must be an "
         "error (never Ok, never a panic) and None<->Some(0) must stay accepted; free-module and Ristretto back ends; distinct by (bits, m, T, group, alteration, outcome)",
         ["alterations whose bytes no longer decode are counted as rejected at decoding (C15 decides those)"],
         TRUSTED)
